@@ -6,7 +6,7 @@ import sys
 import traceback
 
 from dst.rec import (
-    REC, SimBudgetExceeded, install_registries, install_monitor, set_budget)
+    REC, SimBudgetExceeded, HarnessError, install_registries, install_monitor, set_budget)
 
 
 def tval(u, unit):
